@@ -1,1 +1,331 @@
-(* Proofs/GenC20Proofs.v - placeholder *)
+(** Proofs/GenC20Proofs.v — Tie B for C20: the definitions GENERATED from the current source of
+    pypyr/config.py and pypyr/platform.py (Gen/GenC20.v, rewritten on every run by
+    tools/py2coq_c20.py) are proved equal to the hand-written model (Model/Config.v) that the
+    property theorems are about, for all inputs.  The primitives the translator leaves abstract
+    (reading + parsing a file, [getattr(self, k).update(v)], [setattr]) are instantiated with the
+    model's ([model_prims]).  An edit to the translated Python therefore re-checks — or breaks —
+    these lemmas themselves. *)
+From PV Require Import Config ConfigProofs GenC20.
+Open Scope string_scope.
+
+(** * The model's instance of the primitives the translator leaves abstract *)
+Definition lift (r : cres config) : cres (config * unit) :=
+  match r with COk c => COk (c, tt) | CErr e => CErr e | CUnsup => CUnsup end.
+
+Definition with_ok {A} (r : cres A) (c : config) : cres (config * A) :=
+  match r with COk a => COk (c, a) | CErr e => CErr e | CUnsup => CUnsup end.
+
+(** [getattr(self, k).update(v)]: the model's [update_dict_prop] on the named attribute *)
+Definition model_getattr_update (k : string) (v : val) : M unit := fun c =>
+  if String.eqb k "shortcuts" then
+    match update_dict_prop (c_shortcuts c) (Some v) with
+    | COk d => COk (mkConfig (c_scalars c) d (c_vars c) (c_loaded c) (c_pyproject c)
+                             (c_skip_init c) (c_paths c), tt)
+    | CErr e => CErr e
+    | CUnsup => CUnsup
+    end
+  else if String.eqb k "vars" then
+    match update_dict_prop (c_vars c) (Some v) with
+    | COk d => COk (mkConfig (c_scalars c) (c_shortcuts c) d (c_loaded c) (c_pyproject c)
+                             (c_skip_init c) (c_paths c), tt)
+    | CErr e => CErr e
+    | CUnsup => CUnsup
+    end
+  else CUnsup.
+
+(** [setattr(self, k, v)] on the scalar attribute table *)
+Definition model_setattr (k : string) (v : val) : M unit :=
+  modify (fun c => with_scalars c (sm_set k v (c_scalars c))).
+
+Definition model_prims (fs : fsys) : prims :=
+  mkPrims
+    (fun p => match fs p with Absent => ROSError | Content v => RVal v end)
+    (fun p => match fs p with
+              | Absent => ROSError
+              | Content (VDict t) => RVal (VDict t)
+              | Content _ => RUnsup
+              end)
+    model_getattr_update model_setattr.
+
+(** * The property sets *)
+Lemma gen_scalar_props_is_model : gen_scalar_props = scalar_props.
+Proof. reflexivity. Qed.
+
+Lemma gen_dict_props_is_model : gen_dict_props = dict_props.
+Proof. reflexivity. Qed.
+
+Lemma str_in_app s a b : str_in s (a ++ b)%list = str_in s a || str_in s b.
+Proof. induction a as [|x r IH]; simpl; [reflexivity|]. rewrite IH, orb_assoc. reflexivity. Qed.
+
+Lemma str_in_ext s a b : (forall x, In x a <-> In x b) -> str_in s a = str_in s b.
+Proof.
+  intros H. destruct (str_in s a) eqn:A; destruct (str_in s b) eqn:B; try reflexivity.
+  - apply str_in_In, H, str_in_In in A. congruence.
+  - apply str_in_In, H, str_in_In in B. congruence.
+Qed.
+
+(** a key is writable according to the source iff the model knows it (any listing order) *)
+Lemma gen_all_writable_props_is_model k :
+  match k with VStr x => str_in x gen_all_writable_props | _ => false end = is_known k.
+Proof.
+  destruct k; try reflexivity. unfold is_known. rewrite <- str_in_app. apply str_in_ext.
+  intros x. split; intros H.
+  - unfold gen_all_writable_props in H. simpl in H.
+    repeat (destruct H as [H|H]; [subst x; simpl; repeat (first [left; reflexivity|right])|]).
+    contradiction.
+  - unfold scalar_props, dict_props in H. simpl in H.
+    repeat (destruct H as [H|H]; [subst x; simpl; repeat (first [left; reflexivity|right])|]).
+    contradiction.
+Qed.
+
+Lemma keyset_diff_is_unknown_keys d :
+  keyset_diff (dict_keys d) gen_all_writable_props = unknown_keys d.
+Proof.
+  unfold keyset_diff, unknown_keys. apply filter_ext. intros k.
+  rewrite gen_all_writable_props_is_model. reflexivity.
+Qed.
+
+(** * [Config.update] *)
+Lemma val_in_keys k d :
+  val_in k (dict_keys d) = match dict_get k d with Some _ => true | None => false end.
+Proof.
+  unfold val_in. induction d as [|[k2 v2] r IH]; simpl; [reflexivity|].
+  destruct (val_eqb k k2); [reflexivity|exact IH].
+Qed.
+
+Lemma for_each_set_modify {K} (g : K -> config -> config) (f : K -> M unit) :
+  (forall k c, f k c = COk (g k c, tt)) ->
+  forall l c, for_each_set l f c = COk (fold_left (fun st k => g k st) l c, tt).
+Proof.
+  intros Hf l c. unfold for_each_set.
+  assert (X : forall l st err unsup,
+    fold_left (fun acc k => let '(st, err, unsup) := acc in
+                 match f k st with
+                 | COk (st', _) => (st', err, unsup)
+                 | CErr e => (st, match err with None => Some e | Some _ => err end, unsup)
+                 | CUnsup => (st, err, true)
+                 end) l (st, err, unsup)
+    = (fold_left (fun st k => g k st) l st, err, unsup)).
+  { induction l0 as [|k r IH]; intros; simpl; [reflexivity|]. rewrite Hf. apply IH. }
+  rewrite X. reflexivity.
+Qed.
+
+Lemma scalars_fold d : forall names c,
+  fold_left (fun st k => with_scalars st (sm_set k (mapping_item (VDict d) (VStr k)) (c_scalars st)))
+            (keyset_inter (dict_keys d) names) c
+  = with_scalars c (fold_left (fun acc name => match dict_get (VStr name) d with
+                                               | Some v => sm_set name v acc
+                                               | None => acc
+                                               end) names (c_scalars c)).
+Proof.
+  induction names as [|n r IH]; intros c; simpl.
+  - destruct c; reflexivity.
+  - rewrite val_in_keys. destruct (dict_get (VStr n) d) as [v|] eqn:G; simpl.
+    + rewrite IH. simpl. rewrite G. reflexivity.
+    + apply IH.
+Qed.
+
+Lemma for_each_set_nil {K} (f : K -> M unit) c : for_each_set [] f c = COk (c, tt).
+Proof. reflexivity. Qed.
+
+Lemma for_each_set_one {K} (a : K) f c :
+  for_each_set [a] f c = match f a c with COk (c1, _) => COk (c1, tt) | CErr e => CErr e | CUnsup => CUnsup end.
+Proof. unfold for_each_set; simpl. destruct (f a c) as [[c1 []]|e|]; reflexivity. Qed.
+
+Lemma for_each_set_two {K} (a b : K) f c :
+  for_each_set [a; b] f c =
+  match f a c with
+  | COk (c1, _) => match f b c1 with COk (c2, _) => COk (c2, tt) | CErr e => CErr e | CUnsup => CUnsup end
+  | CErr e => match f b c with CUnsup => CUnsup | _ => CErr e end
+  | CUnsup => CUnsup
+  end.
+Proof.
+  unfold for_each_set; simpl. destruct (f a c) as [[c1 []]|e|]; simpl.
+  - destruct (f b c1) as [[c2 []]|e'|]; reflexivity.
+  - destruct (f b c) as [[c2 []]|e'|]; reflexivity.
+  - destruct (f b c) as [[c2 []]|e'|]; reflexivity.
+Qed.
+
+(** the dict-valued settings: the loop over [keys & dict_props] is the model's pair of
+    [update_dict_prop]s *)
+Lemma dict_loop_is_model fs d c :
+  for_each_set (keyset_inter (dict_keys d) gen_dict_props)
+    (fun k => bindM (getattr_update (model_prims fs) k (mapping_item (VDict d) (VStr k))) (fun _ => ret tt)) c
+  = match update_dict_prop (c_shortcuts c) (dict_get (VStr "shortcuts") d),
+          update_dict_prop (c_vars c) (dict_get (VStr "vars") d) with
+    | CUnsup, _ | _, CUnsup => CUnsup
+    | CErr e, _ => CErr e
+    | _, CErr e => CErr e
+    | COk sh, COk vs =>
+        COk (mkConfig (c_scalars c) sh vs (c_loaded c) (c_pyproject c) (c_skip_init c) (c_paths c), tt)
+    end.
+Proof.
+  unfold keyset_inter, gen_dict_props. cbn [filter]. rewrite !val_in_keys.
+  cbn [getattr_update model_prims]. unfold mapping_item.
+  destruct (dict_get (VStr "shortcuts") d) as [vs|] eqn:GS;
+  destruct (dict_get (VStr "vars") d) as [vv|] eqn:GV.
+  - rewrite for_each_set_two. unfold bindM, model_getattr_update. rewrite GS, GV.
+    change (String.eqb "shortcuts" "shortcuts") with true.
+    change (String.eqb "vars" "shortcuts") with false. change (String.eqb "vars" "vars") with true.
+    cbv iota.
+    destruct (update_dict_prop (c_shortcuts c) (Some vs)); cbn -[update_dict_prop];
+      destruct (update_dict_prop (c_vars c) (Some vv)); reflexivity.
+  - rewrite for_each_set_one. unfold bindM, model_getattr_update. rewrite GS.
+    change (String.eqb "shortcuts" "shortcuts") with true. cbv iota.
+    destruct (update_dict_prop (c_shortcuts c) (Some vs)); try reflexivity.
+    all: try (destruct c; reflexivity).
+  - rewrite for_each_set_one. unfold bindM, model_getattr_update. rewrite GV.
+    change (String.eqb "vars" "shortcuts") with false. change (String.eqb "vars" "vars") with true.
+    cbv iota.
+    destruct (update_dict_prop (c_vars c) (Some vv)); try reflexivity.
+    all: try (destruct c; reflexivity).
+  - rewrite for_each_set_nil. try reflexivity; destruct c; reflexivity.
+Qed.
+
+Lemma gen_update_is_model fs d c :
+  gen_update (model_prims fs) (VDict d) c = lift (update c d).
+Proof.
+  unfold gen_update, update. cbn [mapping_keys]. rewrite keyset_diff_is_unknown_keys.
+  destruct (unknown_keys d) eqn:U; [|reflexivity]. cbn [is_nil negb].
+  unfold bindM at 1. rewrite dict_loop_is_model.
+  destruct (update_dict_prop (c_shortcuts c) (dict_get (VStr "shortcuts") d)) as [sh|e1|];
+  destruct (update_dict_prop (c_vars c) (dict_get (VStr "vars") d)) as [vs|e2|]; try reflexivity.
+  unfold bindM. cbn [setattr_ model_prims]. unfold model_setattr.
+  rewrite (for_each_set_modify
+             (fun k st => with_scalars st (sm_set k (mapping_item (VDict d) (VStr k)) (c_scalars st))))
+    by reflexivity.
+  rewrite gen_scalar_props_is_model, scalars_fold. reflexivity.
+Qed.
+
+(** * the loaders *)
+Lemma gen_load_yaml_is_model fs path raise c :
+  gen_load_yaml (model_prims fs) path raise c = with_ok (load_yaml fs path raise) c.
+Proof.
+  unfold gen_load_yaml, load_yaml. cbn [read_yaml model_prims].
+  destruct (fs path); [destruct raise|]; reflexivity.
+Qed.
+
+Lemma gen_load_pyproject_toml_is_model fs path c :
+  gen_load_pyproject_toml (model_prims fs) path false c = load_pyproject fs c path.
+Proof.
+  unfold gen_load_pyproject_toml, load_pyproject. cbn [read_toml model_prims].
+  destruct (fs path) as [|v]; [reflexivity|]. destruct v; try reflexivity.
+  destruct l as [|kv r]; [reflexivity|].
+  cbn [py_truth is_nil negb]. unfold bindM, modify, set_pyproject_val, val_get, ret.
+  destruct (dict_get (VStr "tool") (kv :: r)) as [tool|]; [|reflexivity].
+  destruct tool; try reflexivity; cbn [py_truth].
+  all: try match goal with |- context [if ?b then _ else _] => destruct b; reflexivity end.
+Qed.
+
+(** * [Config.handle_path]
+    (proved by cases on the loaded payload rather than against one syntactic shape of the
+    generated term, so that re-nesting the conditions / early returns in the source keeps
+    proving) *)
+Ltac payload_cases fs c :=
+  match goal with
+  | |- _ = lift (handle_payload _ _ ?v) =>
+      destruct v as [ | | | | | | | | | l | | | | | ]; try reflexivity;
+      destruct l as [|kv r]; try reflexivity;
+      cbn [is_none is_mapping negb py_truth is_nil handle_payload]; unfold bindM;
+      rewrite gen_update_is_model;
+      match goal with |- context [update ?c0 (kv :: r)] => destruct (update c0 (kv :: r)) end;
+      reflexivity
+  end.
+
+Lemma gen_handle_path_yaml_is_model fs path raise c :
+  gen_handle_path (model_prims fs) path None raise c = lift (handle_yaml fs c path raise).
+Proof.
+  unfold gen_handle_path, handle_yaml. unfold bindM at 1. rewrite gen_load_yaml_is_model.
+  destruct (load_yaml fs path raise) as [v|e|]; try reflexivity. cbn [with_ok cbind].
+  payload_cases fs c.
+Qed.
+
+Lemma gen_handle_path_pyproject_is_model fs path c :
+  gen_handle_path (model_prims fs) path (Some (gen_load_pyproject_toml (model_prims fs))) false c
+  = lift (handle_pyproject fs c path).
+Proof.
+  unfold gen_handle_path, handle_pyproject. unfold bindM at 1.
+  rewrite gen_load_pyproject_toml_is_model.
+  destruct (load_pyproject fs c path) as [[c1 v]|e|]; try reflexivity. cbn [cbind fst snd].
+  payload_cases fs c1.
+Qed.
+
+(** * platform paths (XDG rules) *)
+Lemma gen_get_config_user_is_model e :
+  gen_get_config_user e "pypyr" "config.yaml" = user_path e.
+Proof.
+  unfold gen_get_config_user, user_path, gen_get_pypyr_config_file_appended, cfg_file.
+  destruct (is_blank (getenv (e_xdg_home e) "")); reflexivity.
+Qed.
+
+Lemma gen_get_config_common_is_model e :
+  gen_get_config_common e "pypyr" "config.yaml" = common_paths e.
+Proof.
+  unfold gen_get_config_common, common_paths, gen_get_pypyr_config_file_appended, cfg_file.
+  destruct (is_blank (getenv (e_xdg_dirs e) "")); reflexivity.
+Qed.
+
+Lemma gen_get_platform_paths_is_model e :
+  gen_get_platform_paths e "pypyr" "config.yaml" = (user_path e, common_paths e).
+Proof.
+  unfold gen_get_platform_paths. rewrite gen_get_config_user_is_model, gen_get_config_common_is_model.
+  reflexivity.
+Qed.
+
+(** * [Config.init] *)
+Lemma for_each_handle_is_model fs : forall ps c,
+  for_each ps (fun path => bindM (gen_handle_path (model_prims fs) path None false) (fun _ => ret tt)) c
+  = lift (handle_yamls fs c ps).
+Proof.
+  induction ps as [|p r IH]; intros c; [reflexivity|].
+  cbn [for_each handle_yamls]. unfold bindM at 1 2. rewrite gen_handle_path_yaml_is_model.
+  destruct (handle_yaml fs c p false) as [c1|e|]; try reflexivity. cbn [lift cbind ret]. apply IH.
+Qed.
+
+Lemma tail_is_model fs e c2 :
+  bindM (gen_handle_path (model_prims fs) "pyproject.toml" (Some (gen_load_pyproject_toml (model_prims fs))) false)
+    (fun _ =>
+       let config_file_name := getenv (e_local e) "pypyr-config.yaml" in
+       bindM (gen_handle_path (model_prims fs) config_file_name None false) (fun _ => ret tt)) c2
+  = lift (cbind (handle_pyproject fs c2 pyproject_name)
+                (fun c3 => handle_yaml fs c3 (local_name e) false)).
+Proof.
+  unfold bindM at 1. rewrite gen_handle_path_pyproject_is_model.
+  destruct (handle_pyproject fs c2 "pyproject.toml") as [c3|er|] eqn:E;
+    unfold pyproject_name; rewrite E; try reflexivity.
+  cbn [lift cbind]. unfold bindM. rewrite gen_handle_path_yaml_is_model. unfold local_name.
+  destruct (handle_yaml fs c3 (getenv (e_local e) "pypyr-config.yaml") false); reflexivity.
+Qed.
+
+Lemma gen_init_is_model fs e c :
+  gen_init (model_prims fs) e c = lift (init e fs c).
+Proof.
+  unfold gen_init, init, skip_requested.
+  destruct (cast_str_to_bool (getenv (e_skip_init e) "0")); [reflexivity|].
+  assert (NG : forall c,
+    (let platform_paths := gen_get_platform_paths e "pypyr" "config.yaml" in
+     bindM (modify (fun c => with_paths c (fst platform_paths) (snd platform_paths))) (fun _ =>
+     bindM (for_each (rev (snd platform_paths)) (fun path =>
+              bindM (gen_handle_path (model_prims fs) path None false) (fun _ => ret tt))) (fun _ =>
+     bindM (gen_handle_path (model_prims fs) (fst platform_paths) None false) (fun _ =>
+     bindM (gen_handle_path (model_prims fs) "pyproject.toml"
+              (Some (gen_load_pyproject_toml (model_prims fs))) false) (fun _ =>
+     let config_file_name := getenv (e_local e) "pypyr-config.yaml" in
+     bindM (gen_handle_path (model_prims fs) config_file_name None false) (fun _ => ret tt)))))) c
+    = lift (cbind (cbind (handle_yamls fs (with_paths c (user_path e) (common_paths e)) (rev (common_paths e)))
+                         (fun c1 => handle_yaml fs c1 (user_path e) false))
+                  (fun c2 => cbind (handle_pyproject fs c2 pyproject_name)
+                                   (fun c3 => handle_yaml fs c3 (local_name e) false)))).
+  { intros c0. rewrite gen_get_platform_paths_is_model. cbn [fst snd].
+    unfold bindM at 1. cbn [modify]. unfold bindM at 1. rewrite for_each_handle_is_model.
+    destruct (handle_yamls fs _ _) as [c1|er|]; try reflexivity. cbn [lift cbind].
+    unfold bindM at 1. rewrite gen_handle_path_yaml_is_model.
+    destruct (handle_yaml fs c1 (user_path e) false) as [c2|er|]; try reflexivity. cbn [lift cbind].
+    apply tail_is_model. }
+  unfold global_path. destruct (e_global e) as [g|]; [|apply NG].
+  destruct g as [|a g]; [apply NG|].
+  cbn [String.eqb negb]. cbv zeta.
+  unfold bindM at 1. rewrite gen_handle_path_yaml_is_model.
+  destruct (handle_yaml fs c (String a g) true) as [c1|er|]; try reflexivity. cbn [lift cbind].
+  unfold bindM at 1. cbn [modify fst snd]. apply tail_is_model.
+Qed.
